@@ -55,9 +55,11 @@ def run(chk):
     chk.cov["cases_enumerated"] = len(cases)
     if not thorough:
         groups = {}
+        big = [c for c in cases if c["n"] > 4]      # structured lists over 12 / 36 arbiters: all of them, always
         for c in cases:
-            groups.setdefault(cls(c), []).append(c)
-        pick = []
+            if c["n"] <= 4:
+                groups.setdefault(cls(c), []).append(c)
+        pick = list(big)
         for k in sorted(groups):
             g = groups[k]
             rng.shuffle(g)
